@@ -11,7 +11,7 @@ import (
 func init() {
 	props["C10"] = func(r *Report) {
 		c10(r)
-		r.Guard("C10.R5", "every lock taken is released on every exit: the relay's mutexes (a lock left held blocks the peer direction for ever)", func() { lockPairRule(r, "h2"); goCaptureRule(r, "h2") })
+		r.Guard("C10.R5", "every lock taken is released on every exit: the relay's mutexes (a lock left held blocks the peer direction for ever)", func() { lockPairRule(r, "h2"); goCaptureRule(r, "h2"); goBlockRule(r, "h2") })
 	}
 	floors["C10"] = map[string]int{"C10.R1": 1, "C10.R2": 2, "C10.R3": 1, "C10.R4": 5, "C10.R5": 1}
 }
@@ -375,6 +375,14 @@ func c10(r *Report) {
 	})
 
 	r.Guard("C10.R4", "reader/writer handshake inside one direction: the writer outlives the reader, errors and shutdown reach the reader", func() {
+		// a failed write toward either side ends the session: the dispatcher hands every
+		// error of the calls it makes (window updates toward the peer, the processors,
+		// the framer) to relayFrames, which returns on it
+		errorsReturnedRule(r, r.Use("h2", "relay.processFrame"), false)
+		for _, n := range []string{"relay.relayFrames", "relay.sendWindowUpdates", "relay.header", "relay.pushPromise", "Config.Proxy"} {
+			errorsReturnedRule(r, r.W.Fn("h2", n), false)
+		}
+
 		g := G(rf)
 		var readerDone, writerErr, frameReady *ssa.MakeChan
 		for _, in := range instrs(rf) {
